@@ -205,11 +205,11 @@ mod verif_replay_search_wt {
 
     fn compare(wt: &WTClient, w: &World, m: &Model) -> Result<(), String> {
         if wt.towers.len() != m.towers.len() {
-            return Err(format!("{} towers in memory, expected {}", wt.towers.len(), m.towers.len()));
+            return Err(format!("{{C18}} {} towers in memory, expected {}", wt.towers.len(), m.towers.len()));
         }
         let reloaded = wt.dbm.load_towers();
         if reloaded.len() != m.towers.len() {
-            return Err(format!("a reload would find {} towers, expected {}", reloaded.len(), m.towers.len()));
+            return Err(format!("{{C18}} a reload would find {} towers, expected {}", reloaded.len(), m.towers.len()));
         }
         for t in 0..2 {
             let id = w.towers[t];
@@ -218,11 +218,11 @@ mod verif_replay_search_wt {
             let e = match m.towers.get(&t) {
                 None => {
                     if mem.is_some() || rec.is_some() || reloaded.contains_key(&id) {
-                        return Err(format!("tower {t} is gone but still known (memory {}, database {})", mem.is_some(), rec.is_some()));
+                        return Err(format!("{{C18}} tower {t} is gone but still known (memory {}, database {})", mem.is_some(), rec.is_some()));
                     }
                     for l in 0..2 {
                         if wt.dbm.load_appointment_receipt(id, w.appts[l].locator).is_some() || wt.has_appointment(id, w.appts[l].locator) {
-                            return Err(format!("tower {t} is gone but a record of its appointment {l} is left"));
+                            return Err(format!("{{C18}} tower {t} is gone but a record of its appointment {l} is left"));
                         }
                     }
                     continue;
@@ -231,13 +231,13 @@ mod verif_replay_search_wt {
             };
             let (mem, rec) = match (mem, rec) {
                 (Some(a), Some(b)) => (a, b),
-                (a, b) => return Err(format!("tower {t}: in memory {}, in the database {}", a.is_some(), b.is_some())),
+                (a, b) => return Err(format!("{{C05,C18}} tower {t}: in memory {}, in the database {}", a.is_some(), b.is_some())),
             };
             let set = |s: &HashSet<Locator>| -> BTreeSet<usize> { s.iter().map(|l| w.loc(l)).collect() };
             let got = (mem.net_addr.net_addr().to_owned(), mem.available_slots, mem.subscription_start, mem.subscription_expiry, mem.status, set(&mem.pending_appointments), set(&mem.invalid_appointments));
             let want = (ADDR[e.addr].to_owned(), e.avail, e.start, e.expiry, e.status, e.pending.clone(), e.invalid.clone());
             if got != want {
-                return Err(format!("tower {t} in memory: {:?}, expected {:?}", got, want));
+                return Err(format!("{{C05,C18}} tower {t} in memory: {:?}, expected {:?}", got, want));
             }
             let derived = if e.proof.is_some() {
                 TowerStatus::Misbehaving
@@ -252,16 +252,16 @@ mod verif_replay_search_wt {
                 rec.appointments.keys().map(|l| w.loc(l)).collect::<BTreeSet<usize>>(), rec.misbehaving_proof.as_ref().map(|p| w.loc(&p.locator)));
             let want = (ADDR[e.addr].to_owned(), e.avail, e.start, e.expiry, derived, e.pending.clone(), e.invalid.clone(), e.receipts.clone(), e.proof);
             if got != want {
-                return Err(format!("tower {t} in the database: {:?}, expected {:?}", got, want));
+                return Err(format!("{{C05,C18}} tower {t} in the database: {:?}, expected {:?}", got, want));
             }
             if rec.pending_appointments.len() != e.pending.len() || rec.invalid_appointments.len() != e.invalid.len() || !bodies_intact {
-                return Err(format!("tower {t}: a pending or invalid appointment lost its body or reads back altered"));
+                return Err(format!("{{C05,C18}} tower {t}: a pending or invalid appointment lost its body or reads back altered"));
             }
             let rl = &reloaded[&id];
             let got = (rl.net_addr.net_addr().to_owned(), rl.available_slots, rl.subscription_start, rl.subscription_expiry, rl.status, set(&rl.pending_appointments), set(&rl.invalid_appointments));
             let want = (ADDR[e.addr].to_owned(), e.avail, e.start, e.expiry, derived, e.pending.clone(), e.invalid.clone());
             if got != want {
-                return Err(format!("tower {t} as a reload would see it: {:?}, expected {:?}", got, want));
+                return Err(format!("{{C18}} tower {t} as a reload would see it: {:?}, expected {:?}", got, want));
             }
             if (e.status == TowerStatus::Misbehaving) != e.proof.is_some() {
                 return Err(format!("(model) tower {t}: misbehaving flag without proof or the reverse"));
@@ -269,16 +269,16 @@ mod verif_replay_search_wt {
             for l in 0..2 {
                 let loc = w.appts[l].locator;
                 if wt.get_appointment_receipt(id, loc).is_some() != e.receipts.contains(&l) {
-                    return Err(format!("tower {t}: get_appointment_receipt(locator {l}) is {}", wt.get_appointment_receipt(id, loc).is_some()));
+                    return Err(format!("{{C05,C18}} tower {t}: get_appointment_receipt(locator {l}) is {}", wt.get_appointment_receipt(id, loc).is_some()));
                 }
                 let known = e.receipts.contains(&l) || e.pending.contains(&l) || e.invalid.contains(&l);
                 if wt.has_appointment(id, loc) != known {
-                    return Err(format!("tower {t}: has_appointment(locator {l}) is {}, expected {}", !known, known));
+                    return Err(format!("{{C05}} tower {t}: has_appointment(locator {l}) is {}, expected {}", !known, known));
                 }
             }
             match (wt.get_registration_receipt(id), wt.get_tower_status(&id)) {
                 (Some(r), Some(s)) if r.subscription_expiry() == e.expiry && r.available_slots() == REG[e.addr].0 && s == e.status => {}
-                (r, s) => return Err(format!("tower {t}: registration receipt {:?} / status {:?}, expected expiry {} and {:?}", r.map(|r| r.subscription_expiry()), s, e.expiry, e.status)),
+                (r, s) => return Err(format!("{{C18}} tower {t}: registration receipt {:?} / status {:?}, expected expiry {} and {:?}", r.map(|r| r.subscription_expiry()), s, e.expiry, e.status)),
             }
         }
         Ok(())
@@ -317,7 +317,7 @@ mod verif_replay_search_wt {
             let got = apply_real(&mut wt, w, *op);
             m = m2;
             if got != want {
-                return Err(format!("{:?} :: step {} returned {:?}, the contracts say {:?}", &seq[..=i], i + 1, got, want));
+                return Err(format!("{:?} :: {{C18}} step {} returned {:?}, the contracts say {:?}", &seq[..=i], i + 1, got, want));
             }
             if let Err(e) = compare(&wt, w, &m) {
                 return Err(format!("{:?} :: after step {}: {}", &seq[..=i], i + 1, e));
@@ -330,7 +330,7 @@ mod verif_replay_search_wt {
         if depth == 0 {
             *count += 1;
             let p = prefix.clone();
-            return std::panic::catch_unwind(std::panic::AssertUnwindSafe(|| run(w, &p))).unwrap_or_else(|_| Err(format!("{:?} :: the real code panicked", p)));
+            return std::panic::catch_unwind(std::panic::AssertUnwindSafe(|| run(w, &p))).unwrap_or_else(|_| Err(format!("{:?} :: {{C05,C18}} the real code panicked", p)));
         }
         for op in ops {
             prefix.push(*op);
